@@ -567,6 +567,7 @@ for _cid, _doms in dict(C01=['gen'], C02=['eval'], C04=['prim'], C05=['op'], C06
     _c['units'] = with_seq(_c['units'], *_doms)
     _c['viol_filter'] = _chain(_c.get('viol_filter'), seq_filter(_cid))
     _c['level_text'] += SEQ_TEXT
+    _c['rule'] += ' Call-sequence unit (E5): one case per call sequence, non-trivial = length >= 2; counters.calls_executed = calls executed and compared.'
     _c['technique'] += '; plus exhaustive enumeration of call sequences (depth 3, thorough 4) over a menu of calls on long-lived objects, objects on a second grid and temporary grids at reused addresses, each sequence in a pristine process, against the exact reference'
     _c['engine'] = _c.get('engine', 'E1 input enumerator') + ' + E5 call-sequence explorer'
     _c['guards'] = dict(_c['guards'], classes=_c['guards'].get('classes', []) + ['len3', 'repeated-call'], counters=_c['guards'].get('counters', []) + ['calls_executed'])
@@ -577,6 +578,7 @@ _c = CHECKS['C14']
 _c['units'] = (lambda prev: (lambda tier: prev(tier) + [seq_unit('mix')] + [seq_unit(d, depths=(3, 3)) for d in ['bf', 'lf', 'op', 'prim', 'gen', 'eval', 'grid', 'interp']]))(_c['units'])
 _c['viol_filter'] = _chain(_c.get('viol_filter'), seq_filter('C14'))
 _c['engine'] = 'E3 object-pool BFS + E5 call-sequence explorer'
+_c['rule'] += ' Call-sequence units (E5): one case per call sequence (non-trivial = length >= 2).'
 _c['technique'] += '; plus exhaustive enumeration of call sequences (depth 3, thorough 4-5) on long-lived const objects (forms, operator expressions, generators, splines), each in a pristine process: persistent operands unchanged, results of earlier calls unchanged, every result identical to the same call executed alone'
 _c['level_text'] += ' Call sequences (E5): eight menus of 12-29 calls (bilinear and linear forms, operator expressions, primitive operators, generators, evaluation, grids that come and go, and a mixed menu of all kinds; the mixed menu to depth 4 in the thorough tier) on long-lived objects, objects on a second grid and temporary grids at reused addresses, every sequence up to depth 3 in a pristine process; after every call every persistent spline equals its reference state, every result returned earlier in the sequence still has its value, and (mutation-free menus) the result is identical to the same call executed alone in a fresh process - hidden state in const objects, function-local or global tables and scratch buffers would show here.'
 _c['guards'] = dict(_c['guards'], classes=_c['guards'].get('classes', []) + ['len3', 'repeated-call'], counters=_c['guards'].get('counters', []) + ['calls_executed'])
@@ -602,6 +604,7 @@ for _cid in ('C14', 'C10'):
     _c['units'] = (lambda prev: (lambda tier: prev(tier) + [unit('faults', 'seq/faults.cpp', 'exact')]))(_c['units'])
     _c['viol_filter'] = fault_filter(_cid, _c.get('viol_filter'))
     _c['engine'] = _c['engine'] + ' + E6 fault-position explorer'
+    _c['rule'] = _c['rule'] + ' Fault-position unit (E6): one case per (operation, target window, operand window, fault kind, fault position k); counters.fault_positions / alloc_fault_positions.'
     _c['guards'] = dict(_c['guards'], classes=_c['guards'].get('classes', []) + ['threw', 'threw:alloc', 'op:t+=a2', 'op:t*=c', 'op:t=t*a0', 'op:t=a2(copy)'], counters=_c['guards'].get('counters', []) + ['fault_positions'])
 CHECKS['C14']['level_text'] += ' Fault positions (E6): 18 in-place updates and assignments (copy and move assignment, += -= with same and lower order, *= /=, converting assignment, results of + - * unary minus, operator applications and linearCombination assigned back) on every (target window, operand window) pair of a 5-point grid, each executed once per scalar arithmetic operation it performs with exactly that operation throwing (19 296 executions) and once per allocation it performs with exactly that allocation failing (4 982 executions): a call that throws leaves its target and its operands unchanged.'
 CHECKS['C14']['technique'] += '; plus exhaustive single-fault injection: every position at which the scalar arithmetic inside an in-place operation can throw'
